@@ -431,7 +431,7 @@ func main() {
 	crash := func(res vx.ChildResult, k int, logp string) {
 		run.Violation("crash:"+vx.NormalisePanic(res.PanicText)+"|"+res.RainFrame, fmt.Sprintf("%s: client crashed: %s at %s (log %s)", res.OpenCase, res.PanicText, res.RainFrame, logp), map[string]any{"tail": res.Tail})
 	}
-	run.RunChildren("scen", run.N(64, 2400), 16, "scen-", 30*time.Second, crash)
+	run.RunChildren("scen", run.N(64, 2400), 16, "c19-", 30*time.Second, crash)
 	run.Assume("other encodings of the private key than the integer 1 are only required to be treated consistently with Stats().Private")
 	run.Finish(12)
 }
